@@ -238,6 +238,17 @@ var misuses = []misuse{
 	{"unordered", "max", "deriveMaxX(1i, 2i)"},
 	{"unordered", "min", "deriveMinX([]bool{}, true)"},
 	{"unordered", "max", "deriveMaxX([]complex128{}, 1i)"},
+	// the default argument is assignable to the element type without being of that type
+	{"unordered-default", "max", "deriveMaxX([]interface{}{}, 5)"},
+	{"unordered-default", "min", "deriveMinX([]interface{}{}, 5)"},
+	{"unordered-default", "max", "deriveMaxX([]complex128{}, 1)"},
+	{"unordered-default", "min", "deriveMinX([]complex128{}, 1)"},
+	{"unordered-default", "max", "deriveMaxX([]interface{ M() }{}, nil)"},
+	{"unordered-default", "min", "deriveMinX([]interface{}{}, \"s\")"},
+	{"unordered-default", "max", "deriveMaxX([]error{}, nil)"},
+	{"unordered-default", "max", "deriveMaxX([]float64{}, 1)"},
+	{"unordered-default", "min", "deriveMinX([]uint8{}, 1)"},
+	{"unordered-default", "max", "deriveMaxX([]chan int{}, nil)"},
 	{"variadic", "curry", "deriveCurryX(func(a int, b ...string) bool { return true })"},
 	{"variadic", "flip", "deriveFlipX(func(a int, b ...string) bool { return true })"},
 	{"variadic", "apply", "deriveApplyX(func(a int, b ...string) bool { return true }, []string{})"},
